@@ -365,6 +365,23 @@ theorem C15_nested_params_once (segs : List (List Nat)) :
 theorem C15_nested_params_eq_flat (segs : List (List Nat)) :
     nestedParams segs = segs.map pathParam := rfl
 
+theorem collect_go (acc : PMap) (pairs : List (List Nat × List Nat)) :
+    pairs.foldl (fun m kv => m.insert kv.1 kv.2) acc
+      = PMap.pushAll acc (pairs.map fun kv => (kv.1, unescape kv.2)) := by
+  induction pairs generalizing acc with
+  | nil => simp [PMap.pushAll]
+  | cons kv rest ih =>
+    simp only [List.foldl_cons, List.map_cons, PMap.pushAll]
+    rw [ih]
+    rfl
+
+/-- **collecting pairs (`FromIterator`) decodes every value exactly once and groups a repeated key with its
+first occurrence, wherever it repeats**: the collected map is what pushing the once-decoded pairs in order gives
+(the same grouping function the query theorems are about). -/
+theorem C15_collect_once (pairs : List (List Nat × List Nat)) :
+    PMap.collect pairs = PMap.pushAll [] (pairs.map fun kv => (kv.1, utf8Lossy (pctDecode kv.2))) := by
+  simpa [PMap.collect, unescape] using collect_go [] pairs
+
 /-- **query round-trip**: a parameter map (any keys and values that are Rust strings) written
 with `to_query_string` and parsed back is the same map — keys, values, multiplicity, order. -/
 theorem C15_query_roundtrip (m : PMap) (hm : MapOK m)
